@@ -29,6 +29,11 @@ NCPU = os.cpu_count() or 4
 def R(test="TestProp", checks=100, shards=1, env=None, race=False, timeout=600, extra=None):
     return dict(test=test, checks=checks, shards=shards, env=env or {}, race=race, timeout=timeout, extra=extra or [])
 
+
+def F(name, seconds):
+    """native go fuzz campaign (thorough tier only; cannot be seeded, the saved crasher is the reproducible unit)"""
+    return dict(fuzz=name, fuzztime=seconds, test=name, checks=0, shards=1, env={}, race=False, timeout=seconds + 300, extra=[])
+
 PROPS = {
     "C01": dict(pkg="c01", level="exploration",
                 quick=[R(checks=1200)],
@@ -57,6 +62,9 @@ PROPS = {
     "C12": dict(pkg="c12", level="exploration",
                 quick=[R(checks=20000)],
                 thorough=[R(checks=200000, shards=16, timeout=1500)]),
+    "C20": dict(pkg="c20", level="exploration",
+                quick=[R(checks=12000, timeout=900)],
+                thorough=[R(checks=40000, shards=16, timeout=2400), F("FuzzPath", 120), F("FuzzJSONIntent", 150), F("FuzzXML", 120)]),
 }
 
 ASSUMPTIONS = {
@@ -114,6 +122,8 @@ def run_check(pid, tier):
     try:
         bins = {}
         for run in cfg[tier]:
+            if run.get("fuzz"):
+                continue
             key = bool(run["race"])
             if key not in bins:
                 b = build(cfg["pkg"], work, race=key)
@@ -138,6 +148,30 @@ def run_check(pid, tier):
         # 2. the generated search
         for runix, run in enumerate(cfg[tier]):
             procs = []
+            if run.get("fuzz"):
+                e = dict(env)
+                cmd = ["go", "test", "-tags", "verif", "-vet=off", "-count=1", "-run", "^$", "-fuzz", "^%s$" % run["fuzz"],
+                       "-fuzztime", "%ds" % run["fuzztime"], "-timeout", "%ds" % run["timeout"], "."]
+                log = open(os.path.join(work, "run%d-fuzz.log" % runix), "w")
+                pr = subprocess.Popen(cmd, cwd=os.path.join(HARNESS, cfg["pkg"]), env=e, stdout=log, stderr=subprocess.STDOUT)
+                try:
+                    rc = pr.wait(timeout=run["timeout"] + 120)
+                except subprocess.TimeoutExpired:
+                    pr.kill()
+                    rc = -9
+                log.close()
+                out = open(log.name).read()
+                m = re.findall(r"execs: (\d+)", out)
+                notes.append("fuzz %s: %s execs in %ds" % (run["fuzz"], m[-1] if m else "?", run["fuzztime"]))
+                if rc != 0:
+                    if "VIOLATION-CANDIDATE" in out:
+                        status = 1 if status == 0 else status
+                        print(out[-3000:])
+                    else:
+                        print(out[-3000:])
+                        notes.append("fuzz %s: infrastructure failure rc=%s" % (run["fuzz"], rc))
+                        status = 2 if status == 0 else status
+                continue
             for shard in range(run["shards"]):
                 e = dict(env)
                 e.update(run["env"])
